@@ -28,8 +28,9 @@ Fixpoint session (V : verifier) (st : N * bytes) (cs : list call) : Prop :=
 Definition pairs (cs : list call) : list (N * bytes) :=
   flat_map (fun c => [(c_src c, c_salh c); (c_tgt c, c_talh c)]) cs.
 
-(* the FULL statement of session consistency for a hash H (refuted for verify_dual_proof, and still
-   refuted — on histories with lagging binary linking — for verify_dual_proof_fixed; see Refuted.v):
+(* the FULL statement of session consistency for a hash H (refuted for verify_dual_proof — on
+   headers with lagging binary linking; before /repo commit d34d669 also on headers as the store
+   emits them; see Refuted.v):
 
      forall st cs, session (V H) st cs ->
      forall id a b, In (id, a) (st :: pairs cs) -> In (id, b) (st :: pairs cs) ->
@@ -45,7 +46,7 @@ Definition pairs (cs : list call) : list (N * bytes) :=
    "accepted against the root of a genuine tree => ..." — do not apply; what is needed is the
    agreement of two acceptances against ONE unknown root, for VerifyInclusion, VerifyLastInclusion
    and VerifyConsistency together, which has not been developed):
-     session_consistency_v1_partial : for verify_dual_proof_fixed, the full statement above restricted
+     session_consistency_v1_partial : for verify_dual_proof, the full statement above restricted
        to sessions in which no call has  source.BlTxID < target.BlTxID < sourceTxID  (what every
        header a current server emits satisfies: BlTxID = ID - 1);
      session_consistency_v2 : the full statement above for verify_dual_proof_v2 with sourceTxID <
